@@ -87,7 +87,7 @@ func run(t *tape.Tape, cfg sim.Config, listen bool) (res sim.Result) {
 	if cfg.Class == "deep" {
 		return runDeep(r, &res)
 	}
-	o := plan.Opts{MinFuncs: 3, MaxFuncs: 8, MaxAtoms: 6, Host: true, Traps: true, Exit: true, Grow: true, Table: true, Segments: true, HostTags: 4}
+	o := plan.Opts{MinFuncs: 3, MaxFuncs: 8, MaxAtoms: 6, Host: true, Traps: true, Exit: true, Grow: true, Table: true, Segments: true, HostTags: 4, GRef: true, Atomics: true}
 	switch cfg.Class {
 	case "faultfree":
 		r.opts = classOpts{}
@@ -136,6 +136,10 @@ func run(t *tape.Tape, cfg sim.Config, listen bool) (res sim.Result) {
 		fn := t.Choose(len(in.P.Funcs))
 		useRec := r.opts.rec && k != 2 && t.Chance(1, 8)
 		arg := int32(t.Choose(1000))
+		if useRec {
+			// a small depth returns, a huge one exhausts the stack; the same function objects see both
+			arg = tape.Pick(t, []int32{3, 1 << 30, 12, 0})
+		}
 		useStack := t.Chance(1, 3)
 		refetch := t.Chance(1, 3)
 		// model first
